@@ -234,7 +234,47 @@ func execute(t *testing.T, c Case) (kind, detail string, hsOK bool) {
 		if !transfer("up", up, cl, srv) {
 			return
 		}
-		transfer("down", down, srv, cl)
+		if !transfer("down", down, srv, cl) {
+			return
+		}
+		// both directions at once: full fragments travel in the query AND in its answer
+		upData, downData := make([]byte, 2*up+1), make([]byte, 2*down+1)
+		for i := range upData {
+			upData[i] = byte(i*7 + 1)
+		}
+		for i := range downData {
+			downData[i] = byte(i*13 + 5)
+		}
+		go cl.Write(upData)
+		go srv.Write(downData)
+		var gotUp, gotDown []byte
+		go func() {
+			buf := make([]byte, 65536)
+			for len(gotUp) < len(upData) {
+				m, err := srv.Read(buf)
+				gotUp = append(gotUp, buf[:m]...)
+				if err != nil {
+					return
+				}
+			}
+		}()
+		go func() {
+			buf := make([]byte, 65536)
+			for len(gotDown) < len(downData) {
+				m, err := cl.Read(buf)
+				gotDown = append(gotDown, buf[:m]...)
+				if err != nil {
+					return
+				}
+			}
+		}()
+		for i := 0; i < 120 && (len(gotUp) < len(upData) || len(gotDown) < len(downData)); i++ {
+			bubble.Wait()
+			bubble.Advance(5 * time.Second)
+		}
+		if !bytes.Equal(gotUp, upData) || !bytes.Equal(gotDown, downData) {
+			kind, detail = "negotiated-parameters-do-not-carry-data|both", fmt.Sprintf("%s: simultaneous transfer of %d bytes up and %d bytes down: received %d up, %d down; logs=%q", desc, len(upData), len(downData), len(gotUp), len(gotDown), bubble.RecentLogs())
+		}
 	})
 	if res.Panic != "" {
 		kind, detail = "panic", res.Panic
